@@ -57,7 +57,7 @@ EXC_PARENTS = {
 def exc_isinstance(cls, target):
     if cls == target:
         return True
-    for p in EXC_PARENTS.get(cls, ('Exception',) if cls not in ('BaseException',) else ()):
+    for p in EXC_PARENTS.get(cls, ()):
         if exc_isinstance(p, target):
             return True
     return False
